@@ -466,7 +466,7 @@ where
         &mut self,
         commit: &CommitHash,
     ) -> Result<Vec<EventRecord>, Self::Error> {
-        let (records, tree) = {
+        let (records, tree, new_len) = {
             let stream = self.record_stream(true).await;
             pin_mut!(stream);
 
@@ -493,21 +493,18 @@ where
                 return Err(Error::CommitNotFound(*commit).into());
             }
 
-            (records, tree)
+            (records, tree, new_len)
         };
 
-        let delete_ids =
-            records.iter().map(|r| *r.commit()).collect::<Vec<_>>();
-
-        // Delete from the database
+        // Delete from the database; commit hashes are not unique
+        // so delete the tail of this event log by position
         let log_type = self.log_type;
+        let id = (&self.owner).into();
         self.client
             .conn_mut(move |conn| {
                 let tx = conn.transaction()?;
                 let events = EventEntity::new(&tx);
-                for id in delete_ids {
-                    events.delete_one(log_type, &id)?;
-                }
+                events.delete_tail(log_type, id, new_len)?;
                 tx.commit()?;
                 Ok(())
             })
